@@ -82,6 +82,8 @@ struct Dumper<'tcx> {
     bodies: BTreeMap<String, J>,
     queue: VecDeque<(Instance<'tcx>, TypingEnv<'tcx>)>,
     seen: HashSet<String>,
+    /// printed path -> the distinct items that print alike (items of separate anonymous blocks, e.g. the wrappers serde_derive emits)
+    alike: std::cell::RefCell<HashMap<String, Vec<DefId>>>,
 }
 
 fn jstr(s: impl Into<String>) -> J {
@@ -106,6 +108,7 @@ impl<'tcx> Dumper<'tcx> {
             bodies: BTreeMap::new(),
             queue: VecDeque::new(),
             seen: HashSet::new(),
+            alike: std::cell::RefCell::new(HashMap::new()),
         }
     }
 
@@ -572,7 +575,21 @@ impl<'tcx> Dumper<'tcx> {
     }
 
     fn instance_key(&self, inst: Instance<'tcx>) -> String {
-        self.path_args(inst.def_id(), inst.args)
+        let base = self.path_args(inst.def_id(), inst.args);
+        let mut alike = self.alike.borrow_mut();
+        let v = alike.entry(base.clone()).or_default();
+        let n = match v.iter().position(|d| *d == inst.def_id()) {
+            Some(n) => n,
+            None => {
+                v.push(inst.def_id());
+                v.len() - 1
+            }
+        };
+        if n == 0 {
+            base
+        } else {
+            format!("{}#{}", base, n + 1)
+        }
     }
 
     fn enqueue(&mut self, inst: Instance<'tcx>, env: TypingEnv<'tcx>) -> String {
